@@ -429,6 +429,21 @@ func xbinExec(ctx *Ctx, w []string) {
 			}
 			monCount("C15 concat decodes")
 			ctx.mon("C15-concat-decodes", ok && pos == total, fmt.Sprintf("items %s: decode stopped at %d of %d", w[1], pos, total))
+			// the same items through ONE ObjectsWriter: the stream must be the concatenation of the Marshal outputs
+			// (whatever the writer keeps between items — a scratch buffer, a cache — must not leak from one into the next)
+			{
+				var sb bytes.Buffer
+				ow := &xbinary.ObjectsWriter{Writer: &sb}
+				wn := 0
+				werr := false
+				for _, it := range items {
+					n, err := it.write(ow)
+					wn += n
+					werr = werr || err != nil
+				}
+				monCount("C15 writer stream=marshal")
+				ctx.mon("C15-writer-eq-marshal", !werr && wn == off && bytes.Equal(sb.Bytes(), buf[:off]), fmt.Sprintf("items %s written through one ObjectsWriter: %d bytes %s, Marshal gives %d bytes %s", w[1], wn, hx(sb.Bytes()), off, hx(buf[:off])))
+			}
 			return hx(buf[:off])
 		case "dec":
 			b := unhx(w[2])
@@ -569,6 +584,10 @@ func runXbin(ctx *Ctx) {
 	if ctx.Thorough {
 		nc = 5000
 	}
+	// directed: a varint (or a byte string of some length) repeated around fixed-width items, on one writer
+	for _, items := range []string{"u:5,b:170,u:5", "u:300,h:48879,u:300", "u:5,w:3735928559,u:5,q:1,u:5", "s:6162,b:7,s:6364", "u:128,b:1,u:128", "s:" + strings.Repeat("61", 150) + ",h:48879,s:" + strings.Repeat("62", 150), "u:0,b:0,u:0"} {
+		do("enc %s", items)
+	}
 	for i := 0; i < nc; i++ {
 		k := r.Range(1, 8)
 		var parts []string
@@ -586,7 +605,11 @@ func runXbin(ctx *Ctx) {
 			case 'q':
 				parts = append(parts, fmt.Sprintf("q:%d", r.U64()))
 			case 'u':
-				parts = append(parts, fmt.Sprintf("u:%d", r.U64()>>uint(r.Intn(64))))
+				if r.Chance(1, 2) {
+					parts = append(parts, fmt.Sprintf("u:%d", []int{0, 1, 5, 127, 128, 300}[r.Intn(6)])) // (repeats are likely)
+				} else {
+					parts = append(parts, fmt.Sprintf("u:%d", r.U64()>>uint(r.Intn(64))))
+				}
 			case 's':
 				l := r.Intn(6)
 				if r.Chance(1, 6) {
